@@ -10,10 +10,11 @@ Reference semantics
   * a write of text `d` owes the client `expand d` (every LF as CR LF), appended to `q` item by item (an item is one byte, or
     the pair CR LF standing for one LF) as long as the item fits into the capacity.  When the next item does not fit, the
     implementation has to try to send.  Room made by that attempt is filled with more of the text as soon as the attempt is
-    over (the queue is drained, or the socket refuses more).  The rest of the text may be given up only if the attempt was
-    refused outright: the buffer is full and send() answered EWOULDBLOCK / EINTR without having taken a single byte.  So a
-    tail is lost only when the buffer is full and the socket takes nothing (or the connection is dead), never a middle
-    part, never half of a CR LF.
+    over (the queue is drained, or the socket refuses more): after an attempt that took at least one byte the text MUST go
+    on.  After an attempt that was refused outright (EWOULDBLOCK / EINTR without a single byte taken) the rest of the text
+    is given up.  What has still not fitted when the write returns is lost - so a tail is lost only when the buffer is
+    full (or the connection is dead), never a middle part, never half of a CR LF.  (The oracle does not demand a send
+    attempt before a tail is dropped from a full queue: the property allows that loss.)
   * the bytes accepted by a send() must be exactly the head of `q` (in order, exactly once, nothing else, nothing twice);
     EWOULDBLOCK / EINTR change nothing; any other error closes the connection.
   * after a close (send error, remove_interactive, peer EOF) nothing may be sent.
@@ -101,6 +102,7 @@ def jstep (j : J) : Ev → J
       if !j.q.isEmpty && !want then j.flag "pending-without-write-interest" else j
   | .stClosed => if j.dead then j else j.flag "closed-without-close-event"
   | .dump _ => j
+  | .snoop _ _ => j
   | .fault w => j.flag ("crash " ++ w)
 
 def judgeFrom (j : J) (evs : List Ev) : J := evs.foldl jstep j
